@@ -41,7 +41,7 @@ FIXED = [
     ("C08", "C08-partial-fold-loses-values", "f2d2f71", ["C08", "not-covered", "assign_stmt:op", "prim", "prim"], "{\"\", \"x y\"} + \"a\" gave {\"x ya\"}: an operand combination that could not be folded was silently dropped", "replays/C08/fixed-partial-fold-loses-values.json"),
     ("C09", "C09-zero-results", "d492ad9", ["C09", "extra-value", "assign_stmt:op"], "a folded binary operation that evaluates to 0, False or \"\" produced no value", "replays/C09/fixed-zero-results.json"),
     ("C09", "C09-zero-operand", "392ae35", ["C09", "extra-value", "assign_stmt:op"], "a numeric operand 0 was treated as a missing operand (`x * 0`, `q + 1` with q = 0 were unknown)", "replays/C09/fixed-zero-results.json"),
-    ("C09", "C09-operand-float-conversion", "c9efa42", ["C13", "crash", "OverflowError"], "operands were tested for a missing value by converting them to float: OverflowError on large integers", "replays/C09/fixed-zero-results.json"),
+    ("C09", "C09-operand-float-conversion", "c9efa42", ["C09", "crash", "OverflowError"], "operands were tested for a missing value by converting them to float: OverflowError on large integers", "replays/C09/fixed-zero-results.json"),
     ("C10", "C10-call-source-pos", "3b37be2", ["C10", "rule-kind", "src:call"], "call_stmt source rules looked up the callee at the wrong operand position: no call source was ever found", "replays/C10/calibration-src-call.json"),
 ]
 
